@@ -1,10 +1,14 @@
 /-
   C06 — Convolution equals the direct sliding-window definition.
-  (Refusals and the pipeline's composition are proved here; the value formula is decided on every
-  run against `specConv`, see DESIGN.md §8.)
+  `C06_conv`: for every batch shape, depth, image / filter size, filter count and stride, `conv`
+  returns exactly the sliding-window tensor `specConv` (over scalars whose addition is a commutative
+  monoid — the flat dot product of the implementation is regrouped into the triple sum of the
+  definition).  Refusals: `C06_refuse_rank`, `C06_refuse_size`.
 -/
 import CorgiModel.Ops
 import CorgiSpec.Ops
+import CorgiProofs.Conv
+import CorgiProofs.Instances
 
 set_option linter.unusedSectionVars false
 
@@ -51,8 +55,37 @@ theorem C06_spec_dims (batch : List Nat) (depth rows cols count fd fr fc sr sc :
       = batch ++ [count, (rows - fr) / sr + 1, (cols - fc) / sc + 1] := by
   simp [specConv, Tensor.ofFn]
 
+
+/-- **The value formula.**  Image `B ++ [D, R, C]` (any batch dimensions `B`, possibly none), filters
+    `[K, D, fr, fc]`, both well-formed, `fr ≤ R`, `fc ≤ C`, strides ≥ 1: the result has dimensions
+    `B ++ [K, (R−fr)/sr+1, (C−fc)/sc+1]` and entry
+    `[b.., f, y, x] = Σ_k Σ_m Σ_n image[b.., k, y·sr+m, x·sc+n] · filter[f, k, m, n]` —
+    overlapping and non-overlapping windows, uneven strides, every batch size alike. -/
+theorem C06_conv [AddLaws S] (B : List Nat) (D R C K fr fc sr sc : Nat) (iv fv : List S)
+    (hwi : (⟨B ++ [D, R, C], iv⟩ : Tensor S).WF) (hwf : (⟨[K, D, fr, fc], fv⟩ : Tensor S).WF)
+    (hfr : fr ≤ R) (hfc : fc ≤ C) (hsr : 1 ≤ sr) (hsc : 1 ≤ sc) :
+    conv (⟨B ++ [D, R, C], iv⟩ : Tensor S) ⟨[K, D, fr, fc], fv⟩ sr sc
+      = .ok (specConv (⟨B ++ [D, R, C], iv⟩ : Tensor S) ⟨[K, D, fr, fc], fv⟩ sr sc) :=
+  conv_spec B D R C K fr fc sr sc iv fv hwi hwf hfr hfc hsr hsc
+
+/-- the im2col stage on its own, for any scalars: every window's patch, read from the image -/
+theorem C06_unroll (B : List Nat) (D R C sr sc fr fc : Nat) (iv : List S)
+    (hposB : ∀ d ∈ B, 1 ≤ d) (hD : 1 ≤ D) (hR : 1 ≤ R) (hC : 1 ≤ C)
+    (hlen : iv.length = prod B * (D * R * C))
+    (hfr : fr ≤ R) (hfc : fc ≤ C) (hfr1 : 1 ≤ fr) (hfc1 : 1 ≤ fc) (hsr : 1 ≤ sr) (hsc : 1 ≤ sc) :
+    ∃ vals, unrollBlocks (⟨B ++ [D, R, C], iv⟩ : Tensor S) sr sc fr fc
+      = .ok ⟨B ++ [((R - fr) / sr + 1) * ((C - fc) / sc + 1), D * (fr * fc)], vals⟩ :=
+  ⟨_, unroll_flat B D R C sr sc fr fc iv hposB hD hR hC hlen hfr hfc hfr1 hfc1 hsr hsc⟩
+
+/-! non-vacuity: a batched image with overlapping, unevenly strided windows over ℤ meets the hypotheses -/
+example : (⟨[2] ++ [2, 4, 5], List.replicate 80 (1 : Int)⟩ : Tensor Int).WF ∧
+    (⟨[3, 2, 2, 3], List.replicate 36 (1 : Int)⟩ : Tensor Int).WF ∧ 2 ≤ 4 ∧ 3 ≤ 5 := by
+  refine ⟨⟨by decide, by decide⟩, ⟨by decide, by decide⟩, by decide, by decide⟩
+
 end Corgi
 
 #print axioms Corgi.C06_refuse_rank
 #print axioms Corgi.C06_refuse_size
 #print axioms Corgi.C06_spec_dims
+#print axioms Corgi.C06_conv
+#print axioms Corgi.C06_unroll
